@@ -138,6 +138,13 @@ class NVSubroutineTranspiler(SubroutineTranspiler):
 
         index_changes = {}  # map index in commands to index in new_commands
 
+        # A scratch register (see `get_unused_register`) must not be used anywhere
+        # in the subroutine: also not further down, or in code that is jumped back to.
+        for instr in self._subroutine.instructions:
+            for op in instr.operands:
+                if isinstance(op, Register):
+                    self._used_registers.update([op])
+
         for i, instr in enumerate(self._subroutine.instructions):
             # check which registers are being written to
             affected_regs = instr.writes_to()
